@@ -407,6 +407,38 @@ def suite_C10():
             cases.append(('r%d' % k, 'list((%s)[%s:%s])' % (sexpr, '' if lo is None else lit(lo), '' if hi is None else lit(hi)), '[%s]' % ', '.join(map(str, sl)),
                           dict(kind='stream', len=n, lo=lo, hi=hi)))
             k += 1
+        # the same integer held in the big-integer representation must index / slice identically (results of // %% ^ gcd stay big)
+        lexpr = '[%s]' % ', '.join(map(str, py))
+        for i in range(-n - 1, n + 2):
+            try:
+                exp = str(py[i])
+            except IndexError:
+                exp = 'ERR'
+            cases.append(('bx%d' % k, '(%s)[%s]' % (lexpr, big_repr(i)), exp, dict(kind='list', len=n, index=i, repr='big')))
+            k += 1
+            for kind2, e2 in [('list', lexpr), ('stream', sexpr), ('string', '"%s"' % ''.join(chr(97 + j) for j in range(n)))]:
+                base = py if kind2 != 'string' else [chr(97 + j) for j in range(n)]
+                show = (lambda xs: '[%s]' % ', '.join(map(str, xs))) if kind2 != 'string' else (lambda xs: ''.join(xs))
+                wrap = 'list(%s)' if kind2 == 'stream' else '%s'
+                cases.append(('bl%d' % k, wrap % ('(%s)[%s:]' % (e2, big_repr(i))), show(base[i:]), dict(kind=kind2, len=n, lo=i, repr='big')))
+                k += 1
+                cases.append(('bh%d' % k, wrap % ('(%s)[:%s]' % (e2, big_repr(i))), show(base[:i]), dict(kind=kind2, len=n, hi=i, repr='big')))
+                k += 1
+        # streams that have already been consumed from the front: indices and slices are relative to what is left
+        for c in range(0, n + 1):
+            rest = py[c:]
+            for how, cexpr in [('drop', '(%s drop %d)' % (sexpr, c)), ('slice', '(%s)[%d:]' % (sexpr, c))]:
+                for i in list(range(-n - 3, n + 4)):
+                    try:
+                        exp = str(rest[i])
+                    except IndexError:
+                        exp = 'ERR'
+                    cases.append(('cs%d' % k, '%s[%s]' % (cexpr, lit(i)), exp, dict(kind='consumed stream', len=n, consumed=c, how=how, index=i)))
+                    k += 1
+                cases.append(('cl%d' % k, 'len(%s)' % cexpr, str(len(rest)), dict(kind='consumed stream', len=n, consumed=c, how=how, what='len')))
+                k += 1
+                cases.append(('cr%d' % k, 'reverse(%s)' % cexpr, '[%s]' % ', '.join(map(str, rest[::-1])), dict(kind='consumed stream', len=n, consumed=c, how=how, what='reverse')))
+                k += 1
         for i in range(-2 * n - 1, 2 * n + 2):
             if n:
                 cases.append(('c%d' % k, '[%s] !%% %s' % (', '.join(map(str, py)), lit(i)), str(py[i % n]), dict(kind='list', len=n, cyclic_index=i)))
@@ -798,6 +830,60 @@ def suite_C13():
     add('sum(1 til 6)', '15', what='sum of a stream')
     add('sort({3: 0, 1: 0, 2: 0} filter (>1))', '[2, 3]', what='filter of dict keys')
     add('sort({3: 0, 1: 0, 2: 0} map (*2))', '[2, 4, 6]', what='map over dict keys')
+    # long inputs: sorting algorithms switch strategy above ~20 elements
+    recs = [[i % 3, i] for i in range(40)]
+    add('%s sort_on first' % nlit(recs), nlit(sorted(recs, key=lambda r: r[0])), what='sort_on is stable on 40 records')
+    add('%s sort (\\a, b -> first(a) - first(b))' % nlit(recs), nlit(sorted(recs, key=lambda r: r[0])), what='sort by comparator is stable on 40 records')
+    long = [(i * 7) % 11 for i in range(40)]
+    add('sort(%s)' % nlit(long), nlit(sorted(long)), what='sort of 40 items')
+    u40 = []
+    for x in long:
+        if x not in u40:
+            u40.append(x)
+    add('unique(%s)' % nlit(long), nlit(u40), what='unique of 40 items')
+    add('reverse(%s)' % nlit(long), nlit(long[::-1]), what='reverse of 40 items')
+    add('%s filter (>4)' % nlit(long), nlit([x for x in long if x > 4]), what='filter of 40 items')
+    add('%s group 7' % nlit(long), nlit([long[i:i + 7] for i in range(0, 40, 7)]), what='group n of 40 items')
+    # non-ASCII text: the functions that iterate work on characters (len / s[i] / take n / drop n address UTF-8 bytes by design, see C10)
+    for st in ['h\u00e9llo', 'na\u00efve caf\u00e9', '\u00e9ab', 'z\u4e16\u754c!']:
+        py = st
+        S = '"%s"' % py
+        ch = list(py)
+        add('%s take (!= "l")' % S, '"%s"' % ''.join(it.takewhile(lambda c: c != 'l', ch)), what='take (predicate) on non-ASCII text')
+        add('%s take (!= "b")' % S, '"%s"' % ''.join(it.takewhile(lambda c: c != 'b', ch)), what='take (predicate) on non-ASCII text')
+        add('%s take (!= " ")' % S, '"%s"' % ''.join(it.takewhile(lambda c: c != ' ', ch)), what='take (predicate) on non-ASCII text')
+        add('%s drop (!= " ")' % S, '"%s"' % ''.join(it.dropwhile(lambda c: c != ' ', ch)), what='drop (predicate) on non-ASCII text')
+        add('(%s take (!= "a")) $ (%s drop (!= "a"))' % (S, S), S, what='take ++ drop is the text')
+        add('reverse(%s)' % S, '"%s"' % py[::-1], what='reverse of non-ASCII text')
+        add('%s filter (!= "a")' % S, '"%s"' % ''.join(c for c in ch if c != 'a'), what='filter of non-ASCII text')
+        add('%s window 2' % S, '[%s]' % ', '.join('"%s"' % py[i:i + 2] for i in range(len(py) - 1)), what='window of non-ASCII text')
+        add('prefixes(%s)' % S, '[%s]' % ', '.join('"%s"' % py[:i] for i in range(len(py) + 1)), what='prefixes of non-ASCII text')
+    # stepped ranges whose span is not a multiple of the step
+    for a, b, st in [(1, 9, 3), (0, 7, 2), (1, 10, 4), (9, 1, -3), (7, 0, -2), (0, 0, 2), (5, 6, 7)]:
+        r = list(range(a, b, st))
+        R = '(%s til %s by %s)' % (lit(a), lit(b), lit(st))
+        add('list(reverse(%s))' % R, nlit(r[::-1]), what='reverse of a stepped range')
+        add('suffixes(%s)' % R, nlit([r[len(r) - i:] for i in range(len(r) + 1)]), what='suffixes of a stepped range')
+        add('prefixes(%s)' % R, nlit([r[:i] for i in range(len(r) + 1)]), what='prefixes of a stepped range')
+        add('sort(%s)' % R, nlit(sorted(r)), what='sort of a stepped range')
+        add('%s window 2' % R, nlit([r[i:i + 2] for i in range(len(r) - 1)]), what='window of a stepped range')
+        add('sum(%s)' % R, nlit(sum(r)), what='sum of a stepped range')
+    # relations that are not equivalences: each element is compared with its predecessor
+    for xs in [[1, 2, 3, 5, 6, 8], [1, 3, 2, 4, 1, 5, 0], [5, 4, 3, 3, 2]]:
+        runs = []
+        for x in xs:
+            if runs and runs[-1][-1] + 1 == x:
+                runs[-1].append(x)
+            else:
+                runs.append([x])
+        add('%s group (\\a, b -> a + 1 == b)' % nlit(xs), nlit(runs), what='group by relation compares neighbours')
+        runs = []
+        for x in xs:
+            if runs and runs[-1][-1] < x:
+                runs[-1].append(x)
+            else:
+                runs.append([x])
+        add('%s group (<)' % nlit(xs), nlit(runs), what='group by relation compares neighbours')
     # stability and mixed numeric kinds
     add('[[2, "a"], [1, "b"], [2, "c"], [1, "d"]] sort_on first', '[[1, "b"], [1, "d"], [2, "a"], [2, "c"]]', what='sort_on is stable')
     add('sort([[2, "a"], [1, "b"], [2, "c"], [1, "d"]] map first)', '[1, 1, 2, 2]', what='sort')
